@@ -19,14 +19,6 @@ class _Feed(io.RawIOBase):
         return x
 
 
-def is_end_of_stream_none():
-    from pyasn1.codec.streaming import isEndOfStream
-    src = _Feed([None, b'\x05'])
-    got = list(isEndOfStream(src))
-    return True in got, 'isEndOfStream(source whose first read() returns None) yields %r: end of stream is reported ' \
-                        'although data follows' % (got,)
-
-
 def wrapper_renumbering():
     from pyasn1.codec.streaming import CachingStreamWrapper
     K = io.DEFAULT_BUFFER_SIZE
